@@ -10,7 +10,7 @@ TRUSTED = ("Trusted base: Unicode tables of the unicode-normalization crate and 
 CHECKS = {
  "C01": dict(
    technique="explicit-state model checking (stateright, exhaustive bounded enumeration of inputs on the real tokenizer, invariant on every state)",
-   text="Every string over a trigger alphabet (one symbol per shortcut in the normalisation / lattice / plugin code) up to the stated length, in five fabricated worlds and modes A/B/C, is tokenized by the real code and the partition / lossless-surface invariant is evaluated on every state, including on-demand splits. Exhaustive within the bound; says nothing beyond the alphabet and length bound. A further world puts two input-text plugins against each other (the first moves bytes while keeping the total length, the second edits in between).",
+   text="Every string over a trigger alphabet (one symbol per shortcut in the normalisation / lattice / plugin code) up to the stated length, in five fabricated worlds and modes A/B/C, is tokenized by the real code and the partition / lossless-surface invariant is evaluated on every state, including on-demand splits. Exhaustive within the bound; says nothing beyond the alphabet and length bound. A further world puts two input-text plugins against each other (the first moves bytes while keeping the total length, the second edits in between). Worlds include numerals whose headword and key differ in length and input plugins that erase a whole non-empty text.",
    ref="DESIGN.md §3 C01"),
  "C02": dict(
    technique="explicit-state model checking (stateright) of the real Viterbi search: exhaustive bounded enumeration of texts x cost worlds, reference = brute-force enumeration of all lattice paths plus independent DP over the observed lattice",
@@ -67,11 +67,11 @@ CHECKS = {
  "C06": dict(
    level="fault_enumeration", engine="E1-stateright+E3-sink-faults",
    technique="fault enumeration: every failure offset (error and Ok(0), whole and single-byte writes) of the compiler's output sink; plus explicit-state enumeration (stateright) of byte strings, hostile field deviations, matrix texts and builder call orders with an independent validator of every accepted output",
-   text="For the baseline system and user dictionaries a failing sink is injected at every byte offset (returning an error, returning Ok(0), accepting whole writes or one byte per call): compile must never report success, and short writes must not change the output. The input half enumerates every byte string up to the bound (all 256 byte values; a CSV-relevant alphabet) as system lexicon, user lexicon and matrix, a valid row with every single/pair of hostile field values and arities, 41 matrix texts and every builder call order up to length 5 (thorough 6): no panic, and whenever success is reported an independent validator loads the dictionary, checks every indexed entry's ids against the matrix as the lookup formula indexes it, every reference, and analyses probe texts.",
+   text="For the baseline system and user dictionaries a failing sink is injected at every byte offset (returning an error, returning Ok(0), accepting whole writes or one byte per call): compile must never report success, and short writes must not change the output. The input half enumerates every byte string up to the bound (all 256 byte values; a CSV-relevant alphabet) as system lexicon, user lexicon and matrix, a valid row with every single/pair of hostile field values and arities, 41 matrix texts and every builder call order up to length 5 (thorough 6): no panic, and whenever success is reported an independent validator loads the dictionary, checks every indexed entry's ids against the matrix as the lookup formula indexes it, every reference, and analyses probe texts. After every injected sink failure the same builder is asked again with a healthy sink (success must mean the dictionary), and keys with up to 700 indexed rows must either be rejected or be handed out completely.",
    ref="DESIGN.md §3 C06"),
  "C07": dict(
    technique="explicit-state model checking (stateright): all 1,112,064 scalars in context and all bounded strings through the real input-text plugins, compared state by state with a reference normaliser",
-   text="The real DefaultInputText / ProlongedSoundMark / IgnoreYomigana plugins are run on every scalar value in several contexts (forcing both code paths) and on every string up to the bound over a trigger alphabet under four rewrite tables (prefix keys, multi-character keys and values, exempt characters), each table loaded twice; every result must equal the reference function written from the statement. The three plugins are also run as one pipeline in three orders against the composition of the three reference functions, and short texts are normalised on buffers that were used (and overflowed) before.",
+   text="The real DefaultInputText / ProlongedSoundMark / IgnoreYomigana plugins are run on every scalar value in several contexts (forcing both code paths) and on every string up to the bound over a trigger alphabet under four rewrite tables (prefix keys, multi-character keys and values, exempt characters), each table loaded twice; every result must equal the reference function written from the statement. The three plugins are also run as one pipeline in three orders against the composition of the three reference functions, and short texts are normalised on buffers that were used (and overflowed) before. Short texts are also normalised behind paddings of unrelated characters whose length lies around the powers of two (a rewrite must not depend on where in a long text its span lies).",
    ref="DESIGN.md §3 C07"),
  "C08": dict(
    technique="explicit-state model checking (stateright BFS with canonical-state de-duplication) over histories of edit batches on the real InputBuffer, plus bounded string enumeration on the real tokenizer",
@@ -80,13 +80,13 @@ CHECKS = {
  "C18": dict(
    engine="E2-schedules",
    technique="stateless model checking of the real code under a controlled cooperative scheduler (CHESS-style iterative preemption bounding over sched_point hooks; real OS threads, every hand-off owned by the explorer)",
-   text="Every interleaving at hook granularity of the drivers listed in the evidence (2 threads x 2 analyses, 3 threads x 1 analysis with sentence splitting, katakana runs, bracketed readings, first use of a dictionary, different field requests, characters with equal low 16 bits, a 1300-word dictionary) over one shared Arc<JapaneseDictionary> that is newly loaded for every execution (all three OOV provider types, both path-rewrite plugins, input plugins, two user dictionaries) with at most 0, 1, 2 preemptions is executed on the real code: each thread's morphemes must equal its single-threaded result, the dictionary fingerprint must not change, no thread may panic or block outside the scheduler; the first schedules are replayed twice to show the harness owns the nondeterminism. Send+Sync of the dictionary is asserted at compile time.",
+   text="Every interleaving at hook granularity of the drivers listed in the evidence (2 threads x 2 analyses, 3 threads x 1 analysis with sentence splitting, katakana runs, bracketed readings, first use of a dictionary, different field requests, characters with equal low 16 bits, a 1300-word dictionary) over one shared Arc<JapaneseDictionary> that is newly loaded for every execution (all three OOV provider types, both path-rewrite plugins, input plugins, two user dictionaries) with at most 0, 1, 2 preemptions is executed on the real code: each thread's morphemes must equal its single-threaded result, the dictionary fingerprint must not change, no thread may panic or block outside the scheduler; the first schedules are replayed twice to show the harness owns the nondeterminism. Send+Sync of the dictionary is asserted at compile time. One driver's analyses end in an error value (regex provider in debugging mode): every thread must get the error its single-threaded run gets.",
    note="Scheduling points exist only at the hook sites; races inside one section between two hooks, memory-ordering effects and the internals of regex / lazy_static / std::sync::Once are not explored. The Python half rests on the shared core plus PyO3's exclusive borrow while the GIL is released; C19's driver adds a sampled (non-deciding) Python thread run. " + TRUSTED,
    ref="DESIGN.md §3 C18"),
  "C19": dict(
    engine="E4-external",
    technique="bounded-exhaustive enumeration of command-line inputs and Python API call sequences run through the real binary / extension out of process, differential against the in-process library (explicit enumeration of operation sequences up to a depth)",
-   text="CLI: every file of at most 2 (thorough 3) lines over seven line bodies x LF / CRLF / missing final terminator / lone CR x nine flag sets and I/O routes (file, stdin, -o), one line beyond 65535 bytes, and a 600-word dictionary with 600 parts of speech is fed to the real `sudachi` binary built from /repo; stdout must equal byte for byte what the library and the documented column / wakati format give for each line without its terminator. Python: every call sequence up to depth 2 (thorough 3) over 31 operations (tokenize with and without per-call mode and out=, a failing call with per-call mode, Morpheme.split with and without out=, lookup with and without out=, holding a morpheme across list reuse) for five tokenizer configurations on the real extension: results equal the library's, text[begin:end] is the raw surface, per-call modes do not stick, the interpreter finishes.",
+   text="CLI: every file of at most 2 (thorough 3) lines over seven line bodies x LF / CRLF / missing final terminator / lone CR x nine flag sets and I/O routes (file, stdin, -o), one line beyond 65535 bytes, and a 600-word dictionary with 600 parts of speech is fed to the real `sudachi` binary built from /repo; stdout must equal byte for byte what the library and the documented column / wakati format give for each line without its terminator. Python: every call sequence up to depth 2 (thorough 3) over 31 operations (tokenize with and without per-call mode and out=, a failing call with per-call mode, Morpheme.split with and without out=, lookup with and without out=, holding a morpheme across list reuse) for five tokenizer configurations on the real extension: results equal the library's, text[begin:end] is the raw surface, per-call modes do not stick, the interpreter finishes. The CLI is also run over configurations that list one user dictionary several times, and a Python Dictionary configured with a projection is driven with and without overrides ('surface' included).",
    note="Subjects run out of process (E4); the pre_tokenizer path needs the `tokenizers` package, which is not installed, and is not exercised; the Python thread run is a sample. " + TRUSTED,
    ref="DESIGN.md §3 C19"),
  "C20": dict(
